@@ -1,0 +1,29 @@
+//go:build verif
+
+package udp
+
+// Verification hook, compiled only with the build tag "verif": a failpoint that
+// makes ReadTXTimestamp behave as if the kernel had not delivered the transmit
+// timestamp within the poll timeout (the timestamp stays in the error queue).
+
+import "sync/atomic"
+
+var verifLateTXTimestamps atomic.Int32
+
+// VerifLateTXTimestamps makes the next n calls of ReadTXTimestamp (process-wide)
+// return errTimestampNotFound without reading the error queue.
+func VerifLateTXTimestamps(n int) {
+	verifLateTXTimestamps.Store(int32(n))
+}
+
+func verifLateTXTimestamp() bool {
+	for {
+		n := verifLateTXTimestamps.Load()
+		if n <= 0 {
+			return false
+		}
+		if verifLateTXTimestamps.CompareAndSwap(n, n-1) {
+			return true
+		}
+	}
+}
